@@ -134,9 +134,14 @@ def fail_if(detector, slot: int = 0, bad=None, value=None) -> None:
     _put(detector, slot, fingerprint({"value": value}))
 
 
-def level(detector, level: float = 0.0, tilt: float = 0.0, delay_ms: float = 0.0, noise: float = 0.0) -> None:
+def level(detector, level: float = 0.0, tilt: float = 0.0, delay_ms: float = 0.0, noise: float = 0.0,
+          slow=(), slow_ms: float = 0.0) -> None:
     """calibration probe: pixel = level + tilt·column (+ noise·uniform draws of the process-wide generator);
-    data-dependent delay to perturb the completion order of the candidates"""
+    data-dependent delay to perturb the completion order of the candidates; the candidates listed in `slow`
+    ([level, tilt] pairs, e.g. the initial population of the first-created island) sleep `slow_ms` more"""
+    LOG.append(("level", float(level), float(tilt), 0.0, threading.get_ident()))
+    if slow_ms and any(float(level) == float(a) and float(tilt) == float(b) for a, b in slow):
+        time.sleep(float(slow_ms) / 1000.0)
     rows, cols = detector.geometry.shape
     arr = float(level) + float(tilt) * np.arange(cols, dtype=float)[None, :] * np.ones((rows, 1))
     if noise:
